@@ -200,7 +200,10 @@ fn run(case: &Case, out: &mut Out) {
                     for line in text.lines() {
                         if let Some(v) = line.strip_prefix("viol ") {
                             let (c, t) = v.split_once(' ').unwrap_or((v, ""));
-                            out.viol(c, t);
+                            // the c12-* verdicts (retry state of a backend) belong to C12's check, which runs the same binary
+                            if !c.starts_with("c12-") {
+                                out.viol(c, t);
+                            }
                         } else if line.starts_with("note ") {
                             out.note(&format!("bb: {}", &line[5..]));
                         }
